@@ -443,7 +443,11 @@ Definition parse_op (k : stkind) (nops : nat) (st : sstate) (ts : list ttok) : o
               else OpErr                                             (* undeclared name *)
           end
         else
-          match str2type n with
+          match (match str2type n with
+                 | None => if (bytes_eqb n (str "undef") && negb (is_sig k) && negb (is_var k))%bool
+                           then Some TUNDEF else None               (* va_list memory *)
+                 | s => s
+                 end) with
           | None => OpErr                                            (* Unknown type *)
           | Some t =>
               if (is_var k && negb (match t with TI64 | TF | TD | TLD => true | _ => false end))%bool then OpErr
